@@ -111,6 +111,8 @@ impl Drop for PanicMarker {
             #[cfg(humphrey_verif)]
             crate::verif::point("Marker_Send", self.0 as i64, 0);
             self.1.send(self.0).ok();
+            #[cfg(humphrey_verif)]
+            crate::verif::point("Marker_Sent", self.0 as i64, 0);
         }
     }
 }
